@@ -1064,6 +1064,37 @@ Proof.
   intros H I. destruct (ev_dial _ _ _ _ _ _ H I) as (e & sid' & en & A & B & C & D & _). exists e, sid', en. auto.
 Qed.
 
+(* C07_dial_into_listed_entry: the socket a successful dial returns is installed, in the same atomic section as the
+   closed check (connLock is held across DialFunc), into an entry that is open and is the table's entry for that id -
+   before and after the step - so the sweeper and the final cleanup still reach it *)
+Lemma dial_into_listed_entry s a s' ev sid k :
+  reachable s -> step timeout s a = Some (s', ev) -> In (EDial sid (Some k)) ev ->
+  exists e en', In (sid, e) (table s) /\ table s' = table s /\
+    nth_error (heap s') e = Some en' /\ e_sid en' = sid /\ e_sock en' = Some k /\ e_closed en' = false /\
+    e_closes en' = 0%nat /\ e_pc en' = PRead.
+Proof.
+  intros R H I. pose proof (reachable_Inv _ R) as HI.
+  destruct (Inv_core _ HI) as (_ & _ & CC & _). destruct HI as (_ & _ & _ & EI).
+  revert H I.
+  destruct a as [sid0 c| | | | | | |ok0|ok0| |e ok0|e|e ok0|t e|t|t| | | |d]; simpl; intros H I.
+  all: dmatch H; inversion H; subst; clear H; unfold get in *; simpl in I.
+  all: try contradiction.
+  all: try (destruct I as [X|[]]; discriminate X).
+  all: try (match goal with H : closer_c1 _ _ _ = Some _ |- _ => apply closer_c1_spec in H; destruct H as (won & C & _) end).
+  all: try (match goal with H : close1 _ _ = Some _ |- _ => apply close1_spec in H;
+              destruct H as (en & G & [(_ & _ & _ & ->)|(_ & _ & _ & ->)]); [destruct I|];
+              destruct (e_sock en); [destruct I as [X|[]]; discriminate X|destruct I] end).
+  all: try (match goal with H : closer_log _ _ = Some _ |- _ => unfold closer_log in H; dmatch H; inversion H; subst;
+              destruct I as [X|[]]; discriminate X end).
+  destruct I as [X|[]]. inversion X; subst. clear X.
+  assert (L : (e < length (heap s))%nat) by (apply nth_error_Some; congruence).
+  assert (CF : closedf s e = false) by (unfold closedf; now rewrite E0).
+  destruct (CC e L CF) as [IT _]. unfold sidf in IT. rewrite E0 in IT.
+  destruct (EI e e0 E0) as [CO _]. unfold closes_ok in CO. rewrite E1 in CO. simpl in CO.
+  eexists e, _. simpl. split; [exact IT|]. split; [reflexivity|].
+  split; [eapply nth_upd_eq; eauto|]. simpl. repeat split; auto.
+Qed.
+
 (* C07_fresh_after_expiry *)
 Lemma fresh_after_expiry s :
   reachable s ->
